@@ -77,6 +77,9 @@ structure Obs where
   /-- number of objects / containers reachable from both the original and the copy -/
   shared : Nat
   post : List PostObs
+  /-- when the copy was taken inside a batch open on an original object: what the original delivered on leaving the
+  batch, and what an object whose batch nobody copied delivers (labels in the visit order from the root) -/
+  batchExit : Option (List (Nat × String) × List (Nat × String)) := Option.none
   deriving DecidableEq, Repr
 
 /-! ### rendering a model world -/
@@ -239,6 +242,8 @@ def specOK (o : Obs) : Nat × Option String :=
   | Option.none, some c =>
     if c != o.origAt then (1, some "copy is not isomorphic to the original (values / Parameter attributes / attributes / watcher tables)")
     else if o.shared != 0 then (1, some s!"original and copy share {o.shared} mutable object(s)")
+    else if (match o.batchExit with | some (got, twin) => got != twin | Option.none => false) then
+      (1, some "taking the copy inside the original's open batch changed what the original delivers on leaving the batch")
     else
       let rec go : List PostObs → Snap → Snap → Nat → Nat × Option String
         | [], _, _, n => (n, Option.none)
